@@ -732,7 +732,7 @@ def _compound_grid_quick(draw):
 # ============================================================================= registration
 
 SUBS = [
-    Sub('bday', lambda tier: _bday_case(), run_bday, quick=5000, thorough=25000,
+    Sub('bday', lambda tier: _bday_case(), run_bday, quick=5000, thorough=20000,
         rule="start anywhere in 1900-2299 (any time of day), n in [-60,60], spelled 'nb' with optional '+' / upper case or as named tenor spot/on/tn/sn, "
              'through dt_bump and dt; oracle: day-by-day walk skipping Sat/Sun after rolling a weekend start to Monday (cross-checked with a weekday table); '
              'lands on weekday, monotone against t + 0..9 days, from a weekday: a then b == a+b (two calls, two bumps, compound string), +n then -n returns. '
@@ -744,12 +744,12 @@ SUBS = [
     EnumSub('bday_compose', enum_bday_compose, run_bday_compose, strategy=lambda tier: _compose_quick, quick=600, chunks=32,
             rule='40 fixed weeks spread over the cycle x Mon..Fri x every a in [-60,60] (one evaluation = one (start, a) with every b of the same sign, |a+b| <= 60): '
                  "'ab' then 'bb' == '(a+b)b' as two calls, as two bumps of one call and as one compound string; each also equals the weekday table"),
-    Sub('fixed_units', lambda tier: _fixed_case(), run_fixed, quick=4000, thorough=15000,
+    Sub('fixed_units', lambda tier: _fixed_case(), run_fixed, quick=4000, thorough=10000,
         rule="start anywhere in 1900-2299 with seconds/microseconds; bump = 'nd','nw','nh','nn','ns' (n in [-60,60], optional '+', either case), int n, or timedelta "
              '(days, seconds, microseconds); through dt_bump and dt; oracle t + timedelta; +x then -x returns to t. '
              'non-trivial = non-zero bump from an intraday start or into another month',
         floor=0.3, class_floors={'int': 0.05, 'td': 0.05, 'negative': 0.25, 'intraday_unit_crosses_midnight': 0.02}),
-    Sub('month_units', lambda tier: _month_case(), run_month, quick=4000, thorough=15000,
+    Sub('month_units', lambda tier: _month_case(), run_month, quick=4000, thorough=10000,
         rule="midnight start anywhere in 1900-2299 (month ends, leap days over-weighted); 'nm','nq','ny', n in [-60,60]; oracle: month arithmetic by integer division, "
              'day kept if it exists else excess rolls into the following month (cross-checked with first-of-month + (day-1) days); inverse when day <= 28. '
              'non-trivial = day of month >= 29 and n != 0',
@@ -760,7 +760,7 @@ SUBS = [
     EnumSub('single_grid', enum_single, run_single, strategy=lambda tier: _single_quick, quick=3000, chunks=32,
             rule="every unit letter x every n in [-60,60] x 50 fixed starts (25 midnight incl. month ends / leap days / Mon..Sun, 25 intraday; midnight only for m/q/y): "
                  "every spelling ('n', '+n', upper case, int and timedelta for days, timedelta for w/h/n/s, named tenors for 0b..3b) through dt_bump and dt"),
-    Sub('compound', lambda tier: _compound_case(), run_compound, quick=6000, thorough=40000,
+    Sub('compound', lambda tier: _compound_case(), run_compound, quick=6000, thorough=30000,
         rule='two- and three-part tenors over all nine unit letters, n in [-60,60] each, optional + / upper case per part, as one string or as separate bumps, '
              'through dt_bump and dt; oracle: left fold of the single-part oracles. non-trivial = parts of both signs',
         floor=0.25, class_floors={'has_month': 0.3, 'has_b': 0.15, 'k=3': 0.3, 'month_overflow': 0.01, 'b_from_weekend': 0.03, 'later_part_negative': 0.3}),
